@@ -81,6 +81,7 @@ def documents(tier):
         ("case_collisions", "thrift", [stress["case_collisions"]], None),
         ("shared_ns", "thrift", [stress["shared_ns"]], "shared_main.thrift"),
         ("dedup_modules", "thrift", [stress["dedup_modules"]], "dd_main.thrift"),
+        ("touch_multi", "thrift", [stress["touch_multi"]], "tm_main.thrift"),
         ("sem_service", "thrift", [sem["sem_service"]], None),
         ("proto_nested", "proto", [corpus.RawDoc("proto_nested", {"proto_nested.proto": PROTO_NESTED}, mode="proto")], None),
     ]
@@ -133,6 +134,9 @@ def run_one(binpath, mode, idl_dir, docname, rawdocs, output_mode, outdir, seed,
             cmd += ["--split"]
     if getattr(d, "dedup", None):
         cmd += ["--dedup", ",".join(d.dedup)]
+    for rel, items in getattr(d, "touch", {}).items():
+        cmd += ["--touch", "%s:%s" % (os.path.join(idl_dir, d.name, rel), ",".join(items))]
+    cmd += getattr(d, "flags", [])
     if mode == "proto":
         cmd += ["--include", os.path.join(idl_dir, d.name)]
     cmd += [main]
